@@ -26,7 +26,7 @@ def models(tier, seed):
 
 
 def required_tags(tier):
-    return ['order:1', 'order:2', 'complex_poles', 'real_poles', 'closed_form', 'algebraic_only', 'settle_dc', 'kcl', 'rest_start', 'scheme:other', 'sources:2', 'capacitors>=2']
+    return ['order:1', 'order:2', 'complex_poles', 'real_poles', 'closed_form', 'algebraic_only', 'settle_dc', 'kcl', 'rest_start', 'scheme:other', 'sources:2', 'capacitors>=2', 'reanalysed_with_other_values']
 
 
 def poly_eval(poly, p, eta):
@@ -84,12 +84,22 @@ def replay(case, ctx):
     tg.add(f'order:{len(eig)}')
     tg.add('complex_poles' if np.any(np.abs(eig.imag) > 1e-12) else 'real_poles')
     variants = case.get('schemes') or [(0,), ((h0 % (N_SCHEMES - 1)) + 1,)]
-    for (scheme,) in variants:
+    variants = [tuple(v) for v in variants]
+    if 'schemes' not in case and (ctx.get('tier') == 'thorough' or h0 % 2 == 0):
+        # the same circuit under the same names with other capacitances / inductances (frequency unit 10 or 1000: C/wu, L/wu) on a time axis
+        # compressed by wu: every sample keeps its value - a simulation must not remember the previous circuit of that name
+        variants.append((0, [1, 3][(h0 >> 1) % 2]))
+    for var in variants:
+        scheme = var[0]
+        wexp = var[1] if len(var) > 1 else 0
+        wu = 10.0 ** wexp
         naming = Naming(scheme)
         if not scheme_is_default_order(scheme):
             tg.add('scheme:other')
-        ctxs = f'scheme={scheme}'
-        built, e = call(build_circuit, comps, naming, 0, (0, 0, 0))
+        if wexp:
+            tg.add('reanalysed_with_other_values')
+        ctxs = f'scheme={scheme}' + (f' frequency_unit=1e{wexp}' if wexp else '')
+        built, e = call(build_circuit, comps, naming, 0, (0, 0, wexp))
         if e is not None:
             mism.append({'what': 'Circuit(...)', 'got': repr(e), 'want': 'accepted', 'signature': f'exc:construct:{exc_sig(e)}', 'detail': ctxs})
             continue
@@ -100,10 +110,10 @@ def replay(case, ctx):
             K = case['K']
             lam = [gauss(x) for x in case['poles']]
             Useq = np.array([[float(rat(x)) for x in vals(row)] for row in vals(case['u'])])       # (K+1) x m
-            for hf in ((0.2, 0.037) if ctx.get('tier') == 'thorough' or len(variants) == 1 else ((0.2,) if scheme == 0 else (0.037,))):
+            for hf in ((0.2, 0.037) if ctx.get('tier') == 'thorough' or len(variants) == 1 else ((0.2,) if scheme == 0 and not wexp else (0.037,))):
                 h = hf / lam_max
                 t = h * np.arange(K + 1)
-                sol = run_transient(circuit, ids, src_ids, t, Useq, mism, ctxs + f' h={h}')
+                sol = run_transient(circuit, ids, src_ids, t / wu, Useq, mism, ctxs + f' h={h}')
                 if sol is None:
                     continue
                 eta = 1.0 / h
@@ -161,8 +171,8 @@ def replay(case, ctx):
         lam_min = min(abs(eig.real))
         if lam_min <= 0:
             continue
-        if scheme == 0 and len(variants) > 1 and ctx.get('tier') != 'thorough':
-            continue            # quick: the long run once per scenario, under the adversarial naming
+        if scheme == 0 and not wexp and len(variants) > 1 and ctx.get('tier') != 'thorough':
+            continue            # quick: the long run once per scenario, under the adversarial naming (and for the re-analysed circuit)
         N = 120
         T = 40.0 / lam_min
         t = np.linspace(0, T, N + 1)
@@ -171,7 +181,7 @@ def replay(case, ctx):
         U[0, :] = 0.0                      # step realised as a one-sample ramp
         amps = np.array([1.0 + 0.5 * q for q in range(m)])
         U = U * amps
-        sol = run_transient(circuit, ids, src_ids, t, U, mism, ctxs + ' long run')
+        sol = run_transient(circuit, ids, src_ids, t / wu, U, mism, ctxs + ' long run')
         if sol is None:
             continue
         cur = {}
